@@ -698,6 +698,21 @@ fn generate(rng: &mut Rng, n: u64, tier: &str, emit: &mut dyn FnMut(Vec<String>)
         ".newdot".into(),
         "empty".into(),
     ];
+    // construction of the backend on a root with stale temporary files and look-alikes (start-up clean-up)
+    {
+        let plant = |names: &[&str]| -> Vec<String> { names.iter().map(|n| (*n).to_owned()).collect() };
+        let sets: [Vec<String>; 3] = [
+            plant(&[".tmp.7.internal.part", ".tmp.12345.internal.part"]),
+            plant(&[
+                ".tmp.7.internal.part", ".tmp..internal.part", ".tmp.9.internal.partx", "x.tmp.1.internal.part", ".tmp.3", "a.internal.part",
+                "bucket-a/.tmp.1.internal.part", "bucket-a/sub/.tmp.2.internal.part", "tmp.4.internal.part",
+            ]),
+            plant(&[]),
+        ];
+        for set in sets {
+            emit(mk("fs_new", "", "", "", "", "", 0, &set, "-", ""));
+        }
+    }
     for bk in &buckets {
         for op in ["create_bucket", "delete_bucket", "head_bucket", "get_bucket_location", "list_objects", "list_objects_v2"] {
             emit(mk(op, bk, "", "", "", "", 0, &[], "-", ""));
@@ -912,11 +927,61 @@ fn parse_in(f: &[&str], outer: &str) -> In {
     }
 }
 
+/// `fs_new`: plant files (names relative to the root, field `keys`) into a fresh layout, construct the backend, and report what
+/// the construction (its start-up clean-up of stale temporary files) changed
+fn evaluate_new(w: &mut World, f: &[&str]) -> Vec<String> {
+    let root = w.outer.join("root");
+    let planted = un_list_hex(f[7]).expect("keys");
+    for name in &planted {
+        let p = root.join(String::from_utf8_lossy(name).as_ref());
+        if let Some(dir) = p.parent() {
+            let _ = std::fs::create_dir_all(dir);
+        }
+        let mut content = b"stale:".to_vec();
+        content.extend_from_slice(name);
+        std::fs::write(&p, content).expect("plant");
+    }
+    let mut before = Snap::new();
+    walk(&w.outer, "", &mut before);
+    let code = match FileSystem::new(&root) {
+        Ok(fs) => {
+            drop(fs);
+            "OK"
+        }
+        Err(_) => "ERR",
+    };
+    let mut after = Snap::new();
+    walk(&w.outer, "", &mut after);
+    let hx = |rel: &str| -> String { hex(rel.as_bytes()) };
+    let lab = |rel: &str| if rel.starts_with("root/") || rel == "root" { "B" } else { "X" };
+    let mut changed: Vec<String> = Vec::new();
+    for (rel, nb) in &before {
+        match after.get(rel) {
+            None => changed.push(format!("-{}:{}:{}", if nb.dir { 'd' } else { 'f' }, hx(rel), lab(rel))),
+            Some(na) if !na.dir && !nb.dir && na != nb => changed.push(format!("~f:{}:{}", hx(rel), lab(rel))),
+            Some(_) => {}
+        }
+    }
+    for (rel, na) in &after {
+        if !before.contains_key(rel) {
+            changed.push(format!("+{}:{}:-", if na.dir { 'd' } else { 'f' }, hx(rel)));
+        }
+    }
+    changed.sort();
+    let outer_s = w.outer.to_string_lossy().into_owned();
+    let cwd = std::env::current_dir().map(|p| p.to_string_lossy().into_owned()).unwrap_or_default();
+    vec![code.to_owned(), changed.join(","), String::new(), "-".to_owned(), hex(outer_s.as_bytes()), hex(cwd.as_bytes())]
+}
+
 fn evaluate(f: &[&str]) -> Vec<String> {
     let mut guard = WORLD.lock().unwrap_or_else(std::sync::PoisonError::into_inner);
     let w = guard.get_or_insert_with(World::new);
     if w.snap.is_none() {
         w.rebuild();
+    }
+    if f[0] == "fs_new" {
+        w.snap = None; // the layout is changed: rebuilt for the next case
+        return evaluate_new(w, f);
     }
     let before = w.snap.take().expect("snapshot"); // a panic below leaves `snap` empty ⇒ rebuild next time
     let outer_s = w.outer.to_string_lossy().into_owned();
